@@ -1,11 +1,12 @@
 import GbVerif.Proofs.PpuBits
+import GbVerif.Proofs.PpuSel
 /-!
 C15 — the frame presented at VBlank equals the reference composition.
 Property theorems only; lemmas are in `Proofs/Ppu*.lean`.
 Model: `Model/Ppu.lean` (mirror of `src/devices/video/*.rs`); spec: `Spec/Frame.lean`.
 -/
 namespace GbVerif.C15
-open GbVerif.Ppu GbVerif.FrameSpec GbVerif.PpuBits
+open GbVerif.Ppu GbVerif.FrameSpec GbVerif.PpuBits GbVerif.PpuObj GbVerif.PpuSel
 
 /-! ### stage (i): bit tricks and tile addressing -/
 
@@ -31,5 +32,53 @@ unsigned from 0x8000 when set, signed from 0x9000 when clear (all 256 indices ×
 theorem tile_address_spec (r : Ppu.Regs) (idx : Nat) (hl : r.lcdc < 256) (hi : idx < 256) :
     getTileAddress (Cfg.ofRegs r) idx = bgTileData (toSpec r) idx :=
   tileAddr_eq r idx hl hi
+
+/-! ### stage (ii): the object line cache
+
+Hypotheses of the stage theorems: all registers are bytes (`RegsOk`), VRAM is 8 KiB and OAM 160
+bytes of bytes (`IsBytes`); `mem a` is the array `a` read as the reference's memory function. -/
+
+/-- `find_current_line_sprites` never panics and leaves in `object_line_cache[x + 8]`, for every
+screen column `x`, the reference's winning opaque object pixel at (x, ly) — selection of at most ten
+objects in OAM order, 8×16 tile pairs, both flips, lowest X then lowest OAM index — encoded as
+`present | priority (= not BG-over-OBJ) | palette | colour`, and 0 where the reference shows no object
+(`cacheByteSpec`, which is defined from `FrameSpec.winnerOf`/`selected`/`objColour` only). -/
+theorem object_cache_spec (r : Ppu.Regs) (vram oam : Array Nat) (ly : Nat) (hr : RegsOk r)
+    (hv : vram.size = 8192) (ho : oam.size = 160) (hvb : IsBytes vram) (hob : IsBytes oam) :
+    ∃ cache, findCurrentLineSprites (Cfg.ofRegs r) vram oam ly = .ok cache ∧ cache.size = 176 ∧
+      ∀ x, x < 160 → mem cache (x + 8) = cacheByteSpec (toSpec r) (mem vram) (mem oam) x ly :=
+  findSprites_spec r hr vram oam hv ho hvb hob ly
+
+/-- the reference's `winnerOf`, read declaratively: the object it returns has an opaque pixel at
+(x, ly) and beats (lower X, or equal X and lower OAM index) every candidate that has one. -/
+theorem winner_is_least (r : FrameSpec.Regs) (vram oam : Mem) (sel : List Nat) (x ly i : Nat)
+    (h : winnerOf r vram oam sel x ly = some i) :
+    i ∈ sel ∧ objColour r vram oam i x ly ≠ 0 ∧
+      ∀ j ∈ sel, objColour r vram oam j x ly ≠ 0 →
+        objX oam i < objX oam j ∨ (objX oam i = objX oam j ∧ i ≤ j) := by
+  unfold winnerOf at h
+  have hm := List.mem_of_find?_eq_some h
+  have hp := List.find?_some h
+  simp only [Bool.and_eq_true, bne_iff_ne, ne_eq, List.all_eq_true, Bool.or_eq_true, beq_iff_eq] at hp
+  refine ⟨hm, hp.1, ?_⟩
+  intro j hj hc
+  rcases hp.2 j hj with h0 | hb
+  · exact absurd h0 hc
+  · unfold beats at hb
+    simp only [Bool.or_eq_true, Bool.and_eq_true, decide_eq_true_eq] at hb
+    exact hb
+
+/-- non-vacuity: registers and memories meeting the hypotheses on which an object pixel is shown
+(forty 8×8 objects at Y=16, X=16, all opaque: ten are selected, OAM entry 0 wins at x=8, ly=0,
+with OBP1 and priority over the BG: byte 0xC7). -/
+example :
+    let r : Ppu.Regs := ⟨0x83, 0, 0, 0, 0, 0xe4, 0xe4, 0xe4⟩
+    let vram := Array.replicate 8192 255
+    let oam := Array.replicate 160 16
+    RegsOk r ∧ vram.size = 8192 ∧ oam.size = 160 ∧ IsBytes vram ∧ IsBytes oam ∧
+      cacheByteSpec (toSpec r) (mem vram) (mem oam) 8 0 = 0xc7 := by
+  refine ⟨⟨by decide, by decide, by decide, by decide, by decide, by decide, by decide, by decide⟩,
+    by simp, by simp, isBytes_replicate _ _ (by decide), isBytes_replicate _ _ (by decide), ?_⟩
+  decide +kernel
 
 end GbVerif.C15
